@@ -18,7 +18,7 @@ META = dict(
                 "variable is symbolic (none / do / shift / noise / do+shift / do+noise). z3 (QF_UF + linear real arithmetic) decides "
                 "per path: the result is n x p; a do-target equals its intervention draw alone; otherwise X[r,i] = f_i(X[r, parents in "
                 "increasing index]) + (noise + shift | new noise | noise), with the parents taken from the oracle's own non-zero pattern.",
-    bounds=dict(quick="p <= 3 all DAG patterns x all intervention assignments x 3 callable flavours, n in {0,1,2}; p = 4 with at most 1 intervened variable, n = 1; wide graphs: p = 10 with one child of two arbitrary parents (all 36x... index choices), n = 1",
+    bounds=dict(quick="p <= 3 all DAG patterns x all intervention assignments x 4 callable flavours, n in {0,1,2}; p = 4 with at most 1 intervened variable, n = 1; wide graphs: p = 10 with one child of two arbitrary parents (all 36x... index choices), n = 1",
                 thorough="p = 4 all assignments with n = 2; wide graphs p = 12"),
     outside=["n > 2", "assignment callables that inspect or mutate global state", "targets that are both shift- and noise-intervened (the statement gives no rule)"],
     stubs=["numpy -> symnp", "assignment / noise / intervention callables -> uninterpreted functions and fresh symbolic draws"],
@@ -204,7 +204,7 @@ def obligations(tier):
             for fl in ('vector', 'column', 'scalar', 'firstcol'):
                 for c in I.dag_pair_cubes(p, 2 if p == 3 else 0):
                     cubes.append(dict(c, n=n, flavour=fl))
-        ob.append(Obligation('anm_p%d' % p, h_anm, cubes, "ANM.sample on every DAG pattern on %d nodes, every intervention assignment, n in {0,1,2}, 3 callable flavours" % p,
+        ob.append(Obligation('anm_p%d' % p, h_anm, cubes, "ANM.sample on every DAG pattern on %d nodes, every intervention assignment, n in {0,1,2}, 4 callable flavours" % p,
                              expect=('returned',), weight=p * 4))
     if tier == 'quick':
         c4 = [dict(c, n=1, flavour='vector', max_targets=1) for c in I.dag_pair_cubes(4, 3)]
